@@ -374,7 +374,8 @@ def _scale_task(task, G, res):
             res["discharged"] += 1
         else:
             res["extra"]["disagreements_checked"] = res["extra"].get("disagreements_checked", 0) + 1
-            res["violations"].append({"signature": f"kFlowDecompCycles:scale-variance:{_scale_diag(task, c)}",
+            sigd = ("scaled-program-" + verdicts[1]) if verdicts[1].startswith("raised:") else _scale_diag(task, c)
+            res["violations"].append({"signature": f"kFlowDecompCycles:scale-variance:{sigd}",
                                       "summary": f"{task['name']}: k={k}: LP(f) {verdicts[0]}, LP({c}*f) {verdicts[1]}",
                                       "replay": {"kind": "scale_k", "task": task, "k": k}})
     return res
